@@ -1,9 +1,30 @@
 import Karp.Driver.Proto
 import Karp.Model.ClusterState
+import Karp.Model.ClusterStateExt
 import Karp.Spec.ClusterAbs
+import Karp.Spec.ClusterAbsDs
 
 namespace Karp.Driver.C11
-open Lean Karp.Driver Karp.ClusterState Karp.Spec.ClusterAbs
+open Lean Karp.Driver Karp.ClusterState Karp.Spec.ClusterAbs Karp.Spec.ClusterAbsDs
+
+/-- one event of the harness: a model event, ONE call of MarkForDeletion / UnmarkForDeletion with several provider ids, or a
+    Pod reconcile during which PersistentVolume / StorageClass reads fail -/
+inductive DEv
+  | one (e : Event)
+  | markMany (pids : List String)
+  | unmarkMany (pids : List String)
+  | recPodFaulty (name : String)
+
+/-- the single-event reading (API, ghost, universe, preconditions) -/
+def DEv.events : DEv → List Event
+  | .one e => [e]
+  | .markMany l => l.map .mark
+  | .unmarkMany l => l.map .unmark
+  | .recPodFaulty n => [.recPod n]
+
+def DEv.isApi : DEv → Bool
+  | .one e => e.isApi
+  | _ => false
 
 /-! ## Parsing the history -/
 
@@ -38,7 +59,7 @@ def parsePort (j : Json) : Except String HostPort := do
   let ip ← strD j "ip"
   pure { ip := if ip = "" then "0.0.0.0" else ip, port := (← natF j "port"), proto := (← strF j "proto") }
 
-def parseEvent (w : World) (i : Nat) (j : Json) : Except String Event := do
+def parseEvent1 (w : World) (i : Nat) (j : Json) : Except String Event := do
   let t ← strF j "t"
   let name ← strD j "name"
   match t with
@@ -75,6 +96,15 @@ def parseEvent (w : World) (i : Nat) (j : Json) : Except String Event := do
   | "unmark" => pure (.unmark (← strD j "pid"))
   | "nominate" => pure (.nominate (← strD j "pid"))
   | _ => throw s!"bad event type {t}"
+
+def parseEvent (w : World) (i : Nat) (j : Json) : Except String DEv := do
+  let t ← strF j "t"
+  let pids ← match fldOpt j "pids" with | none => pure [] | some v => strList v
+  match t with
+  | "mark" => if pids.isEmpty then pure (.one (← parseEvent1 w i j)) else pure (.markMany pids)
+  | "unmark" => if pids.isEmpty then pure (.one (← parseEvent1 w i j)) else pure (.unmarkMany pids)
+  | "rpf" => pure (.recPodFaulty (← strD j "name"))
+  | _ => pure (.one (← parseEvent1 w i j))
 
 /-! ## The observation universe (same derivation as `universeOf` in the harness) -/
 
@@ -219,6 +249,17 @@ def parseSteps (impl : Json) : Except String (List StepObs) := do
 
 def recStr : RecResult → String | .ok => "ok" | .requeue => "requeue" | .none => ""
 
+/-- one harness event against the model: the new cache and the reconcile result class ("err" = the reconcile returned the
+    error of the failed volume lookup) -/
+def stepD (fx : Fixes) (c : Cluster) (api : Api) : DEv → Except String (Cluster × String)
+  | .one e => match c.step fx api e with | .ok (c', r) => .ok (c', recStr r) | .error e => .error e
+  | .markMany l => .ok (c.markMany l, "")
+  | .unmarkMany l => .ok (c.unmarkMany l, "")
+  | .recPodFaulty n =>
+    match c.recPodFaulty fx api n with
+    | .ok ((c', r), failed) => .ok (c', if failed then "err" else recStr r)
+    | .error e => .error e
+
 /-- the node objects of a rendered view -/
 def nodesOf (v : Json) : List Json := match v.getObjVal? "nodes" with | .ok (.arr a) => a.toList | _ => []
 def fieldOf (o : Json) (k : String) : Json := match o.getObjVal? k with | .ok v => v | _ => Json.null
@@ -264,7 +305,8 @@ def history (inp impl : Json) : Except String Resp := do
   let w ← parsePvcs inp
   let strict ← boolD inp "strict" false
   let evJ ← arrF inp "ev"
-  let evs ← (evJ.zipIdx).mapM (fun (j, i) => parseEvent w i j)
+  let devs ← (evJ.zipIdx).mapM (fun (j, i) => parseEvent w i j)
+  let evs := devs.flatMap DEv.events
   let u := universeOf w evs
   let probes := volProbes u
   let steps ← parseSteps impl
@@ -289,16 +331,23 @@ def history (inp impl : Json) : Except String Resp := do
   let mut exemptPoints := 0
   let mut i := 0
   let mut modelPanic : Option Nat := none
-  for e in evs do
-    api := api.step e
-    if !(wStep g api e) then wfRun := false
-    g := g.step api e
-    if !e.isApi then
+  for de in devs do
+    -- a Pod reconcile that returned an error is retried by controller-runtime: its key has not been observed yet
+    let implErr := match de, stepsLeft with
+      | .recPodFaulty _, s :: _ => s.i == i && s.r == "err"
+      | _, _ => false
+    for e in de.events do
+      api := api.step e
+      if !(wStep g api e) then wfRun := false
+      g := match implErr, e with
+        | true, .recPod name => g.soil "p" name
+        | _, _ => g.step api e
+    if !de.isApi then
       if fixedAlive then
-        match cf.step Fixes.all api e with
+        match stepD Fixes.all cf api de with
         | .ok (cf', _) => cf := cf'
         | .error _ => fixedAlive := false
-      match c.step fxCur api e with
+      match stepD fxCur c api de with
       | .error _ =>
         modelPanic := some i
         break
@@ -325,9 +374,9 @@ def history (inp impl : Json) : Except String Resp := do
             if !jsonEq mv implV then
               allowed := false
               whyA := s!"event {i}: model vs implementation: {(diffJson "view" mv implV).getD "?"}"
-            else if recStr r ≠ s.r then
+            else if r ≠ s.r then
               allowed := false
-              whyA := s!"event {i}: reconcile result model {recStr r} vs implementation {s.r}"
+              whyA := s!"event {i}: reconcile result model {r} vs implementation {s.r}"
             else if s.q ≠ g.quiescent then
               allowed := false
               whyA := s!"event {i}: quiescence model {g.quiescent} vs harness {s.q}"
@@ -429,11 +478,141 @@ def usage (inp impl : Json) : Except String Resp := do
     i := i + 1
   pure { model := some (jObj [("steps", jArr modelSteps)]), spec := some specOk, why := why }
 
+/-! ## c11.daemonsets: the per-DaemonSet pod cache -/
+
+def parseDsEvent (i : Nat) (j : Json) : Except String DsEvent := do
+  let t ← strF j "t"
+  let name ← strF j "name"
+  match t with
+  | "ds" => pure (.setDs { name := name, uid := (← strD j "uid") })
+  | "dsGone" => pure (.delDs name)
+  | "pod" =>
+    let nat (k : String) : Except String Nat := do match (← natO j k) with | some n => pure n | none => pure 0
+    let cpu ← match (← intO j "cpu") with | some n => pure n | none => pure 0
+    pure (.setPod { name := name, uid := (← strD j "uid"), ver := i, ct := (← nat "ct"), own := (← strD j "own"), cpu := cpu, tol := (← nat "tol") })
+  | "podGone" => pure (.delPod name)
+  | "rd" => pure (.recDs name)
+  | _ => throw s!"bad daemonset event type {t}"
+
+def parseDsEntry (j : Json) : Except String (String × Option DPod) := do
+  let ds ← strF j "ds"
+  if !(← boolF j "has") then pure (ds, none)
+  else pure (ds, some { name := (← strF j "pn"), uid := (← strF j "pu"), ver := (← natF j "pv"), ct := (← natF j "ct"),
+                        own := (← strF j "own"), cpu := (← intF j "cpu"), tol := (← natF j "tol") })
+
+def entryNe (a b : Option DPod) : Bool := decide (a ≠ b)
+
+def showEntry : Option DPod → String
+  | none => "none"
+  | some p => s!"{p.name}(uid {p.uid}, version {p.ver}, created {p.ct}, cpu {p.cpu}, tolerations {p.tol})"
+
+/-- the class of a from-scratch violation of one entry -/
+def dsClass (api : DsApi) (name : String) (entry : Option DPod) : String :=
+  match api.dss.get name, entry with
+  | none, _ => "kept-after-daemonset-gone"
+  | some _, none => "missing"
+  | some d, some e =>
+    let owned := ownedPods api d
+    if owned.isEmpty then "kept-without-owned-pod"
+    else if owned.contains e then "not-newest"
+    else if owned.any (fun q => q.name = e.name && q.uid = e.uid) then "stale-version"
+    else "pod-not-owned-or-gone"
+
+/-- model (relation, the List order of the pods is unspecified) vs implementation after every reconcile; at quiescent points
+    (every DaemonSet key reconciled since the last change of any DaemonSet or pod) the specification `dsFreshOk` is evaluated on
+    what the implementation returns, and on the implementation's own fresh Cluster. When not `strict`, an entry is exempted
+    exactly where the recorded defect makes a difference (the DaemonSet exists and controls no pod while the code as it is keeps
+    whatever was cached). -/
+def daemonsets (inp impl : Json) : Except String Resp := do
+  let strict ← boolD inp "strict" false
+  let evs ← ((← arrF inp "ev").zipIdx).mapM (fun (j, i) => parseDsEvent i j)
+  let names := sortDedup (evs.filterMap fun e => match e with | .setDs d => some d.name | .delDs k => some k | .recDs k => some k | _ => none)
+  let steps ← arrF impl "steps"
+  let fresh ← (← arrD impl "fresh").mapM (fun j => do pure ((← natF j "i"), (← (← arrF j "v").mapM parseDsEntry)))
+  let mut api : DsApi := {}
+  let mut cache : DsCache := []
+  let mut dirty : List String := []
+  let mut stepsLeft := steps
+  let mut allowed := true
+  let mut whyA := ""
+  let mut specOk := true
+  let mut whyS := ""
+  let mut sig := ""
+  let mut specPoints := 0
+  let mut exemptPoints := 0
+  let mut i := 0
+  for e in evs do
+    api := api.step e
+    match e with
+    | .recDs name =>
+      dirty := dirty.filter (· ≠ name)
+      match stepsLeft with
+      | [] =>
+        if allowed then
+          allowed := false
+          whyA := s!"event {i}: the implementation reported no step"
+      | s :: rest =>
+        stepsLeft := rest
+        let entries ← (← arrF s "v").mapM parseDsEntry
+        let q ← boolF s "q"
+        let get (n : String) : Option DPod := match entries.find? (·.1 = n) with | some (_, e) => e | none => none
+        if allowed then
+          if (← natF s "i") ≠ i then
+            allowed := false
+            whyA := s!"event {i}: implementation step index"
+          else if (← strF s "r") ≠ "ok" then
+            allowed := false
+            whyA := s!"event {i}: the reconcile returned an error"
+          else if entries.map (·.1) ≠ names then
+            allowed := false
+            whyA := s!"event {i}: entries {entries.map (·.1)} vs DaemonSet names {names}"
+          else if !recDsAllowed dsForgetCurrent cache api name (get name) then
+            allowed := false
+            whyA := s!"event {i}: reconcile of {name}: the implementation caches {showEntry (get name)}, which the model does not allow (cached before: {showEntry (cache.get name)})"
+          else
+            match names.find? (fun n => decide (n ≠ name) && entryNe (get n) (cache.get n)) with
+            | some n =>
+              allowed := false
+              whyA := s!"event {i}: reconcile of {name} changed the entry of {n}: {showEntry (cache.get n)} -> {showEntry (get n)}"
+            | none => pure ()
+          if q ≠ dirty.isEmpty then
+            allowed := false
+            whyA := s!"event {i}: quiescence model {dirty.isEmpty} vs harness {q}"
+        -- follow the implementation's choice
+        cache := names.foldl (fun m n => match get n with | some p => m.put n p | none => m.erase n) cache
+        if dirty.isEmpty then
+          specPoints := specPoints + 1
+          for n in names do
+            let exempt := !strict && !dsForgetCurrent &&
+              (match api.dss.get n with | some d => (pickNewest d none api.pods.vals).isNone | none => false)
+            if exempt && (get n).isSome then exemptPoints := exemptPoints + 1
+            if specOk && !exempt && !dsFreshOk api n (get n) then
+              specOk := false
+              sig := (if strict then "witness:" else "") ++ "dspod:" ++ dsClass api n (get n)
+              whyS := s!"event {i} (every DaemonSet reconciled after the last change): GetDaemonSetPod({n}) returns {showEntry (get n)}; from scratch: " ++
+                (match api.dss.get n with
+                 | none => "the DaemonSet does not exist: no entry"
+                 | some d => s!"one of the newest pods it controls, in its current version: {(ownedPods api d).map (fun p => showEntry (some p))}")
+          match fresh.find? (·.1 = i) with
+          | some (_, fe) =>
+            for n in names do
+              let fv : Option DPod := match fe.find? (·.1 = n) with | some (_, e) => e | none => none
+              if allowed && !dsFreshOk api n fv then
+                allowed := false
+                whyA := s!"event {i}: the implementation's own fresh Cluster returns {showEntry fv} for {n}, which the specification rejects"
+          | none => pure ()
+    | _ => dirty := names
+    i := i + 1
+  pure { allowed := some allowed, spec := some specOk, why := if !specOk then whyS else whyA,
+         extra := some (jObj ([("specPoints", jNat specPoints), ("exemptPoints", jNat exemptPoints)] ++
+                              (if sig = "" then [] else [("signature", jStr sig)]))) }
+
 def handle : Handler := fun op inp impl =>
   match op with
   | "c11.history" => history inp impl
   | "c11.orders" => history inp impl
   | "c11.usage" => usage inp impl
+  | "c11.daemonsets" => daemonsets inp impl
   | _ => .error s!"unknown op {op}"
 
 end Karp.Driver.C11
